@@ -71,8 +71,8 @@ theorem lists_conforming_extends :
     `Spec.Cifs.encodeOptional` (short form for a zero field, long form otherwise). -/
 theorem optional_conforming_commands :
     (commands.filter ConformsOptional).map (fun c => (c.name, Manticore.Spec.Cifs.optionalFields c.marshal)) =
-      [("WriteAndCloseRequest", ["Reserved"]), ("WriteAndxRequest", ["OffsetHigh"]),
-       ("WriteRawRequest", ["OffsetHigh"])] := by decide +kernel
+      [("ReadRawRequest", ["OffsetHigh"]), ("WriteAndCloseRequest", ["Reserved"]),
+       ("WriteAndxRequest", ["OffsetHigh"]), ("WriteRawRequest", ["OffsetHigh"])] := by decide +kernel
 
 /-- **What is still outside every proved fragment**: of the ten commands outside the straight-line
     fragment, two pass neither `ConformsLists` nor `ConformsOptional` — `ReadRawRequest` emits `OffsetHigh`
@@ -83,8 +83,7 @@ theorem optional_conforming_commands :
 theorem commands_outside_proved_fragments :
     (commands.filter (fun c => (layoutM c.marshal).isNone && !ConformsLists c && !ConformsOptional c)).map
         (fun c => (c.name, extFailures c)) =
-      [("ReadRawRequest", ["a field emitted under a condition on WordCount", "statement shape"]),
-       ("WriteRequest", ["bytes ahead of the parameter block", "statement shape",
+      [("WriteRequest", ["bytes ahead of the parameter block", "statement shape",
           "int-width/endianness or bytes ahead of the parameter block"])] := by decide +kernel
 
 /-- the nested structures `Marshal` loops over (`for _, x := range c.F { x.Marshal() }`) are these two -/
